@@ -286,6 +286,53 @@ Fixpoint nodes_wf (vs : vars) (nodes : snodes) : bool :=
 Definition directives_wellformed (vs : vars) (q : squery) : bool :=
   nodes_wf vs (sq_body q) && forallb (fun d => nodes_wf vs (fd_body d)) (sq_frags q).
 
+(** * Identifiers
+    The repaired parser allocates a wrapper selection set for every decorated spread; [wt_of] lists
+    (wrapper id, id of the spread fragment's body). *)
+Definition is_wid (WT : list (nat * nat)) (i : nat) : bool := existsb (Nat.eqb i) (map fst WT).
+
+Definition idtab (defs : list fragdef) : list (string * nat) := map (fun d => (fd_name d, fd_id d)) defs.
+
+Fixpoint wt_nodes (tab : list (string * nat)) (nodes : snodes) : list (nat * nat) :=
+  match nodes with
+  | SNil => []
+  | SCons (SField _ _ _ _ (Some (_, body))) rest => wt_nodes tab body ++ wt_nodes tab rest
+  | SCons (SField _ _ _ _ None) rest => wt_nodes tab rest
+  | SCons (SInline _ _ _ body) rest => wt_nodes tab body ++ wt_nodes tab rest
+  | SCons (SSpread f [] _) rest => wt_nodes tab rest
+  | SCons (SSpread f (_ :: _) w) rest =>
+      match lookup f tab with
+      | Some i => (w, i) :: wt_nodes tab rest
+      | None => wt_nodes tab rest
+      end
+  end.
+
+Fixpoint set_ids (nodes : snodes) : list nat :=
+  match nodes with
+  | SNil => []
+  | SCons (SField _ _ _ _ (Some (i, body))) rest => i :: set_ids body ++ set_ids rest
+  | SCons (SField _ _ _ _ None) rest => set_ids rest
+  | SCons (SInline _ _ i body) rest => i :: set_ids body ++ set_ids rest
+  | SCons (SSpread _ _ _) rest => set_ids rest
+  end.
+
+Definition wt_of (q : squery) : list (nat * nat) :=
+  wt_nodes (idtab (sq_frags q)) (sq_body q) ++
+  flat_map (fun d => wt_nodes (idtab (sq_frags q)) (fd_body d)) (sq_frags q).
+
+Definition all_set_ids (q : squery) : list nat :=
+  0 :: sq_id q :: set_ids (sq_body q) ++ flat_map (fun d => fd_id d :: set_ids (fd_body d)) (sq_frags q).
+
+Fixpoint nodup_nat (l : list nat) : bool :=
+  match l with [] => true | x :: t => negb (existsb (Nat.eqb x) t) && nodup_nat t end.
+
+(** Every decorated spread has its own wrapper identifier, different from the identifiers of the
+    selection sets (and from 0, the identifier of a merged set). *)
+Definition ids_wf (q : squery) : bool :=
+  nodup_nat (map fst (wt_of q)) &&
+  forallb (fun i => negb (is_wid (wt_of q) i)) (all_set_ids q).
+
+
 (** * Flatten (parser.go) *)
 Definition item := (selh * option selset)%type.
 
@@ -306,6 +353,24 @@ Fixpoint keep_sels (Q : quirks) (l : list item) : res (list item) :=
   end.
 
 (** The visit of Flatten: [seen] is the set of *SelectionSet already visited in this call. *)
+Definition visit_frags (vis : selset -> list nat -> list item -> res (list nat * list item)) (Q : quirks)
+  : list (fragh * selset) -> list nat -> list item -> res (list nat * list item) :=
+  fix go (l : list (fragh * selset)) (seen : list nat) (acc : list item) {struct l}
+    : res (list nat * list item) :=
+    match l with
+    | [] => Ok (seen, acc)
+    | (h, body) :: t =>
+        match should_include Q (fr_dirs h) with
+        | Bad e => Bad e
+        | Ok false => go t seen acc
+        | Ok true =>
+            match vis body seen acc with
+            | Bad e => Bad e
+            | Ok (seen', acc') => go t seen' acc'
+            end
+        end
+    end.
+
 Fixpoint visit (Q : quirks) (s : selset) (seen : list nat) (acc : list item) {struct s}
   : res (list nat * list item) :=
   match s with
@@ -315,23 +380,7 @@ Fixpoint visit (Q : quirks) (s : selset) (seen : list nat) (acc : list item) {st
         match keep_sels Q sels with
         | Bad e => Bad e
         | Ok kept =>
-            match
-              (fix go (l : list (fragh * selset)) (seen : list nat) (acc : list item) {struct l}
-                 : res (list nat * list item) :=
-                 match l with
-                 | [] => Ok (seen, acc)
-                 | (h, body) :: t =>
-                     match should_include Q (fr_dirs h) with
-                     | Bad e => Bad e
-                     | Ok false => go t seen acc
-                     | Ok true =>
-                         match visit Q body seen acc with
-                         | Bad e => Bad e
-                         | Ok (seen', acc') => go t seen' acc'
-                         end
-                     end
-                 end) frags seen (acc ++ kept)
-            with
+            match visit_frags (fun b sn ac => visit Q b sn ac) Q frags seen (acc ++ kept) with
             | Bad e => Bad e
             | Ok (seen', acc') => Ok (id :: seen', acc')
             end
